@@ -23,6 +23,9 @@ use rs_matter::sc::VerifSessionParams as Sp;
 use rs_matter::tlv::{FromTLV, Nullable, TLVElement, TLVTag, TLVWrite, ToTLV};
 use rs_matter::utils::storage::WriteBuf;
 
+#[path = "c16_derive_shapes.rs"]
+mod shapes;
+
 // ---------------------------------------------------------------------------------- values
 
 #[derive(Clone, Debug, PartialEq)]
@@ -767,6 +770,19 @@ pub fn op(name: &str, op: &str) -> String {
     let mut it = op.split_whitespace();
     let verb = it.next().unwrap_or("");
     let s: Vec<&str> = it.collect();
+    if name.starts_with('@') {
+        // derive shapes (c16_derive_shapes.rs)
+        return match verb {
+            "enc" => match parse(&s) {
+                Ok(v) => shapes::enc(name, &v).unwrap_or_else(|e| e),
+                Err(e) => e,
+            },
+            "dec" => shapes::dec(name, &unhex(s.first().copied().unwrap_or("-"))),
+            // `pdec <hex of the enc op> <hex>`: permuted fields / unknown extra fields
+            "pdec" => shapes::dec(name, &unhex(s.get(1).copied().unwrap_or("-"))),
+            _ => "BADOP".into(),
+        };
+    }
     match verb {
         "enc" => match parse(&s) {
             Ok(v) => enc_real(name, &v).unwrap_or_else(|e| e),
@@ -934,7 +950,52 @@ fn overflow_one(r: &mut Rng, ty: &T, v: &mut V) -> bool {
     }
 }
 
+/// a derive-shape case: `enc`, `dec`, the fields permuted / unknown fields added (`pdec`), and a
+/// truncated / mutated encoding
+fn gen_shape(r: &mut Rng) -> (String, Vec<String>) {
+    let name = *r.pick(shapes::NAMES);
+    let (ty, decl) = shapes::info(name).expect("shape");
+    let v = gen_val(r, &ty, false);
+    let enc_op = format!("enc {}", show(&v));
+    let mut ops = vec![enc_op.clone()];
+    let o = op(name, &enc_op);
+    if let Some(h) = o.strip_prefix("ok:") {
+        ops.push(format!("dec {}", h));
+        let b = unhex(h);
+        if matches!(v, V::Obj(_)) {
+            for extra in [false, true] {
+                if let Some(p) = shapes::permuted(r, &b, extra) {
+                    ops.push(format!("pdec {} {}", h, hex(&p)));
+                }
+            }
+        }
+        let mut m = b.clone();
+        if !m.is_empty() {
+            match r.below(3) {
+                0 => {
+                    let n = r.below(m.len() as u64) as usize;
+                    m.truncate(n);
+                }
+                1 => {
+                    let i = r.below(m.len() as u64) as usize;
+                    m[i] = r.next() as u8;
+                }
+                _ => {
+                    // a tag byte near the front moved to a neighbouring number
+                    let i = r.below(m.len().min(10) as u64) as usize;
+                    m[i] = m[i].wrapping_add(*r.pick(&[1u8, 2, 0xff]));
+                }
+            }
+            ops.push(format!("dec {}", hex(&m)));
+        }
+    }
+    (format!("{} {}", name, decl), ops)
+}
+
 pub fn gen(r: &mut Rng) -> (String, Vec<String>) {
+    if r.chance(2, 5) {
+        return gen_shape(r);
+    }
     let name = *r.pick(NAMES);
     let ty = schema(name).expect("schema");
     let v = gen_val(r, &ty, false);
